@@ -80,12 +80,12 @@ Section G.
   Qed.
 
   (* ---- spelled name lists:  n1 _ , _ n2 ... ---- *)
-  Inductive smore := NmMore (w1 : list tk) (comma : tk) (w2 : list tk) (n : tk).
-  Definition flat_nm (m : smore) : list tk := match m with NmMore w1 comma w2 n => w1 ++ comma :: w2 ++ [n] end.
-  Definition wf_nm (m : smore) : Prop :=
+  Inductive snmore := NmMore (w1 : list tk) (comma : tk) (w2 : list tk) (n : tk).
+  Definition flat_nm (m : snmore) : list tk := match m with NmMore w1 comma w2 n => w1 ++ comma :: w2 ++ [n] end.
+  Definition wf_nm (m : snmore) : Prop :=
     match m with NmMore w1 comma w2 n => all_triv w1 /\ cl comma = CComma /\ all_triv w2 /\ cl n = CId end.
-  Definition erase_nm (m : smore) : text := match m with NmMore _ _ _ n => txt n end.
-  Definition flat_nms (ms : list smore) : list tk := concat (map flat_nm ms).
+  Definition erase_nm (m : snmore) : text := match m with NmMore _ _ _ n => txt n end.
+  Definition flat_nms (ms : list snmore) : list tk := concat (map flat_nm ms).
 
   (* what may follow a name list: trivia, then a token that is no ',' *)
   Definition no_comma_next (rest : list tk) : Prop := next_is is_comma rest = None.
@@ -108,7 +108,7 @@ Section G.
       rewrite (IH Hms' (acc ++ [txt n]) rest f Hrest) by lia. cbn [map erase_nm]. rewrite <- app_assoc. reflexivity.
   Qed.
 
-  Record snames := mkNames { nm_first : tk; nm_more : list smore }.
+  Record snames := mkNames { nm_first : tk; nm_more : list snmore }.
   Definition flat_ns (ns : snames) : list tk := nm_first ns :: flat_nms (nm_more ns).
   Definition wf_ns (ns : snames) : Prop := cl (nm_first ns) = CId /\ Forall wf_nm (nm_more ns).
   Definition erase_ns (ns : snames) : list text := txt (nm_first ns) :: map erase_nm (nm_more ns).
@@ -473,7 +473,7 @@ Section G.
   Record sblock := mkBlock { bk_kw : tk; bk_q : sqkw; bk_w : list tk; bk_ds : sdecls; bk_wend : list tk; bk_end : tk }.
 
   Definition flat_q (q : sqkw) : list tk := match q with QNone => [] | QSome w t => w ++ [t] end.
-  Definition flat_b (b : sblock) : list tk :=
+  Definition flat_bk (b : sblock) : list tk :=
     bk_kw b :: flat_q (bk_q b) ++ bk_w b ++ flat_ds (bk_ds b) ++ bk_wend b ++ [bk_end b].
 
   Definition class_of (c : tcl) : option dclass :=
@@ -500,16 +500,16 @@ Section G.
     | _, _ => false
     end.
 
-  Definition wf_b (b : sblock) : Prop :=
+  Definition wf_bk (b : sblock) : Prop :=
     exists c q, class_of (cl (bk_kw b)) = Some c /\ qual_of (bk_q b) = Some q /\ qual_ok c q = true /\
       (match bk_q b with QNone => True | QSome w _ => all_triv w end) /\
       all_triv (bk_w b) /\ wf_ds c (bk_ds b) /\ all_triv (bk_wend b) /\ cl (bk_end b) = CDk DkEndVar.
-  Definition erase_b (b : sblock) : list ditem :=
+  Definition erase_bk (b : sblock) : list ditem :=
     match class_of (cl (bk_kw b)), qual_of (bk_q b) with
     | Some c, Some q => map (set_qual q) (erase_ds c (bk_ds b))
     | _, _ => []
     end.
-  Definition size_b (b : sblock) : nat := size_ds (bk_ds b).
+  Definition size_bk (b : sblock) : nat := size_ds (bk_ds b).
 
   (* the first token of a declaration list: a name or the ';' of an empty block *)
   Lemma flat_ds_head c l r : wf_ds c l -> exists t r', flat_ds l ++ r = t :: r' /\ solid t /\ (cl t = CId \/ cl t = CSemi).
@@ -542,10 +542,10 @@ Section G.
     apply (next_is_not tk cl _ w t0 r0 Hw St0). destruct Hc as [-> | ->]; destruct k; reflexivity.
   Qed.
 
-  Lemma block_at b rest f : wf_b b -> size_b b <= f -> block f (flat_b b ++ rest) = DOk (erase_b b, rest).
+  Lemma block_at b rest f : wf_bk b -> size_bk b <= f -> block f (flat_bk b ++ rest) = DOk (erase_bk b, rest).
   Proof.
-    intros (c & q & Hc & Hq & Hok & Hqw & Hw & Hl & Hwend & He) Hf. unfold size_b in Hf. unfold erase_b. rewrite Hc, Hq.
-    destruct b as [kw sq w l wend e]. cbn [bk_kw bk_q bk_w bk_ds bk_wend bk_end] in *. unfold flat_b. cbn [bk_kw bk_q bk_w bk_ds bk_wend bk_end app].
+    intros (c & q & Hc & Hq & Hok & Hqw & Hw & Hl & Hwend & He) Hf. unfold size_bk in Hf. unfold erase_bk. rewrite Hc, Hq.
+    destruct b as [kw sq w l wend e]. cbn [bk_kw bk_q bk_w bk_ds bk_wend bk_end] in *. unfold flat_bk. cbn [bk_kw bk_q bk_w bk_ds bk_wend bk_end app].
     unfold DeclParser.block.
     replace ((flat_q sq ++ w ++ flat_ds l ++ wend ++ [e]) ++ rest) with (flat_q sq ++ w ++ flat_ds l ++ wend ++ e :: rest)
       by (repeat (rewrite <- app_assoc; cbn [app]); reflexivity).
@@ -618,11 +618,11 @@ Section G.
 
   (* ---- the sequence of blocks:  _ block _ block ...  ---- *)
   Inductive swb := WB (w : list tk) (b : sblock).
-  Definition flat_wb (x : swb) : list tk := match x with WB w b => w ++ flat_b b end.
+  Definition flat_wb (x : swb) : list tk := match x with WB w b => w ++ flat_bk b end.
   Definition flat_wbs (l : list swb) : list tk := concat (map flat_wb l).
-  Definition wf_wb (x : swb) : Prop := match x with WB w b => all_triv w /\ wf_b b end.
-  Definition erase_wb (x : swb) : list ditem := match x with WB _ b => erase_b b end.
-  Fixpoint size_wbs (l : list swb) : nat := match l with [] => 0 | WB _ b :: r => size_b b + 1 + size_wbs r end.
+  Definition wf_wb (x : swb) : Prop := match x with WB w b => all_triv w /\ wf_bk b end.
+  Definition erase_wb (x : swb) : list ditem := match x with WB _ b => erase_bk b end.
+  Fixpoint size_wbs (l : list swb) : nat := match l with [] => 0 | WB _ b :: r => size_bk b + 1 + size_wbs r end.
 
   Definition block_start (c : tcl) : bool :=
     match c with CDk DkVar | CDk DkVarInput | CDk DkVarOutput | CDk DkVarInOut | CDk DkVarExternal => true | _ => false end.
@@ -636,9 +636,9 @@ Section G.
     destruct (cl t) as [| |k0| | | | | | | | | | | |o| | |k1| | | |dk| |]; try reflexivity. destruct dk; try reflexivity; discriminate H.
   Qed.
 
-  Lemma flat_b_skip b r : wf_b b -> skip (flat_b b ++ r) = flat_b b ++ r.
+  Lemma flat_bk_skip b r : wf_bk b -> skip (flat_bk b ++ r) = flat_bk b ++ r.
   Proof.
-    intros (c & q & Hc & _). unfold flat_b. cbn [app]. apply skip_solid. unfold StExprProofs.solid.
+    intros (c & q & Hc & _). unfold flat_bk. cbn [app]. apply skip_solid. unfold StExprProofs.solid.
     destruct (cl (bk_kw b)); try discriminate Hc. discriminate.
   Qed.
 
@@ -651,11 +651,11 @@ Section G.
     - cbn [size_wbs] in Hf. destruct f as [|f]; [lia|].
       pose proof (Forall_inv Hl) as (Hw & Hb). pose proof (Forall_inv_tail Hl) as Hl'.
       unfold flat_wbs. cbn [map concat flat_wb flat_map erase_wb]. fold (flat_wbs l).
-      replace (((w ++ flat_b b) ++ flat_wbs l) ++ rest) with (w ++ flat_b b ++ flat_wbs l ++ rest)
+      replace (((w ++ flat_bk b) ++ flat_wbs l) ++ rest) with (w ++ flat_bk b ++ flat_wbs l ++ rest)
         by (repeat (rewrite <- app_assoc; cbn [app]); reflexivity).
-      cbn [DeclParser.blocks]. rewrite (skip_app_triv tk cl w _ Hw), (flat_b_skip b _ Hb).
+      cbn [DeclParser.blocks]. rewrite (skip_app_triv tk cl w _ Hw), (flat_bk_skip b _ Hb).
       rewrite (block_at b (flat_wbs l ++ rest) f Hb) by lia.
-      rewrite (IH Hl' (acc ++ erase_b b) rest f Hrest) by lia. rewrite <- app_assoc. reflexivity.
+      rewrite (IH Hl' (acc ++ erase_bk b) rest f Hrest) by lia. rewrite <- app_assoc. reflexivity.
   Qed.
 
   (* ---- a well-formed spelling of declaration blocks is inside the model's scope ---- *)
@@ -808,9 +808,9 @@ Section G.
       apply scoped2_then; [apply (scoped2_d c); exact Hd | apply (scoped_dms c); assumption | exact Tne | exact Th].
   Qed.
 
-  Lemma scoped_b b : wf_b b -> scoped (flat_b b).
+  Lemma scoped_b b : wf_bk b -> scoped (flat_bk b).
   Proof.
-    intros (c & q & Hc & Hq & _ & Hqw & Hw & Hl & Hwend & He). unfold flat_b.
+    intros (c & q & Hc & Hq & _ & Hqw & Hw & Hl & Hwend & He). unfold flat_bk.
     pose proof (scoped_ds c _ Hl) as Sd.
     assert (Sk : ok_class (cl (bk_kw b)) = true) by (destruct (cl (bk_kw b)); try discriminate Hc; reflexivity).
     assert (Sq : scoped (flat_q (bk_q b))).
@@ -854,6 +854,6 @@ Section G.
   Lemma size_wbs_len l : size_wbs l <= length (flat_wbs l).
   Proof.
     induction l as [|[w b] l IH]; [apply Nat.le_refl|]. unfold flat_wbs. cbn [map concat flat_wb size_wbs]. fold (flat_wbs l).
-    unfold size_b, flat_b. repeat (rewrite app_length || cbn [length]). pose proof (size_ds_len (bk_ds b)). lia.
+    unfold size_bk, flat_bk. repeat (rewrite app_length || cbn [length]). pose proof (size_ds_len (bk_ds b)). lia.
   Qed.
 End G.
